@@ -755,6 +755,11 @@ func (r *runner) calculateBranch(ctx context.Context, curNodeKey string, startCh
 			delete(skippedNodes, selected)
 		}
 	}
+	// Likewise a succeeding node that the current node also reaches by a plain (unconditional) edge
+	// is triggered by that edge whatever the branches decide: it must not be reported as skipped.
+	for _, key := range startChan.controls {
+		delete(skippedNodes, key)
+	}
 	for skipped := range skippedNodes {
 		skippedNodeList = append(skippedNodeList, skipped)
 	}
